@@ -252,7 +252,7 @@ func (engine *Engine) TakeSnapshot() error {
 
 	// Create snapshot file. It is written under a temporary name and renamed once it is complete,
 	// so that a state.bin that exists is always a whole snapshot.
-	f, err := os.OpenFile(path.Join(snapshotDir, "state.bin.tmp"), os.O_WRONLY|os.O_CREATE|os.O_TRUNC, os.ModePerm)
+	f, err := os.CreateTemp(snapshotDir, "state.bin.*.tmp")
 	if err != nil {
 		log.Println(err)
 		return err
@@ -273,7 +273,7 @@ func (engine *Engine) TakeSnapshot() error {
 		log.Println(err)
 	}
 	verif.Point("snap.state.sync")
-	if err = os.Rename(path.Join(snapshotDir, "state.bin.tmp"), path.Join(snapshotDir, "state.bin")); err != nil {
+	if err = os.Rename(f.Name(), path.Join(snapshotDir, "state.bin")); err != nil {
 		log.Println(err)
 		return err
 	}
@@ -282,7 +282,7 @@ func (engine *Engine) TakeSnapshot() error {
 	// The state file is complete and on disk: only now publish it in the manifest.
 	// The manifest is written to a temporary file and renamed into place, so that a crash at any
 	// point leaves either the previous manifest (and snapshot) or the new one.
-	mf, err = os.Create(path.Join(dirname, "manifest.bin.tmp"))
+	mf, err = os.CreateTemp(dirname, "manifest.bin.*.tmp")
 	if err != nil {
 		log.Println(err)
 		return err
@@ -312,7 +312,7 @@ func (engine *Engine) TakeSnapshot() error {
 		return err
 	}
 	verif.Point("snap.manifest.sync")
-	if err = os.Rename(path.Join(dirname, "manifest.bin.tmp"), path.Join(dirname, "manifest.bin")); err != nil {
+	if err = os.Rename(mf.Name(), path.Join(dirname, "manifest.bin")); err != nil {
 		log.Println(err)
 		return err
 	}
